@@ -326,6 +326,10 @@ def mon_c06(case, obs, prefix):
         if ev["t"] == "timeout" and not ev["tx"]:
             if rx_entry(d, key_of(prefix, ev["peer"], ev["seq"])) is not None:
                 bad.append((i, "retention expiry did not release the receive transaction"))
+        for e in d.get("rx") or []:
+            if not e.get("timer", True):
+                bad.append((i, "receive transaction %s has no retention timer: its bookkeeping is never released" % e["key"]))
+                break
         if ev["t"] != "recv" or ev["msg"]["k"] in ("srr", "otherrsp"):
             continue
         key = key_of(prefix, ev["peer"], ev["seq"])
@@ -392,6 +396,10 @@ def mon_c09(case, obs, prefix):
             bad.append((i, "fault: " + o["fault"]))
             break
         d = o["dump"]
+        for e in d.get("tx") or []:
+            if not e.get("timer", True):
+                bad.append((i, "outstanding request %s has no retransmission timer: it is neither retried nor abandoned" % e["key"]))
+                break
         outstanding = {e["key"] for e in prev.get("tx") or []}
         fresh = [s for s in sends if s["type"] == "srreq" and not (ev["t"] == "timeout" and ev["tx"])]
         seen = set()
